@@ -16,6 +16,10 @@ stage 4  every observation (+ observations for grammar-generated URLs beyond the
          validated by TLC against spec/Url_Trace.tla: Url!WireClauses returns the set of failing
          clauses (hard), WireDrift compares with the canonical image where the Rules leave latitude
 
+Watchdog: every request is driven in a forked worker under a CPU-time budget (vh/guard.py: max(2 s,
+200 x median per-input CPU time) of WORKER CPU time); a URL whose evaluation is killed is recorded
+with the observation "did-not-return" (hard clause Wire:DidNotReturn).  The harness never hangs.
+
 TLS: the server name is observed as the server_hostname argument of SSLContext.wrap_socket (a
 duck-typed recording context; no handshake is performed) - what the stdlib ssl module then puts
 into SNI / matches against the certificate is trusted.  IP literals never travel as SNI anyway.
@@ -29,7 +33,7 @@ import random
 import ssl
 import warnings
 
-from . import known, net, tlc
+from . import guard, known, net, tlc
 from .c14 import NONE, cps, text
 
 JOBS = int(os.environ.get("VERIF_JOBS") or os.cpu_count() or 4)   # every pool is sized by this
@@ -208,38 +212,39 @@ def describe(ob):
 
 # ------------------------------------------------------------------------------ stages 1-3 (one shard)
 
+def _drive_job(job):
+    return drive(job[0], job[1], job[2])
+
+
+def guarded_drive(jobs, res):
+    """drive() for every (url, proxy mode, variants) inside the CPU-time watchdog (vh/guard.py); a job whose
+    evaluation was killed yields the observation k = "did-not-return" (clause Wire:DidNotReturn)."""
+    import urllib3  # noqa: F401  (import the code under test before forking, so the workers start warm)
+    obs, dnr, info = guard.guarded_map(_drive_job, jobs)
+    for i in dnr:
+        url, px, variants = jobs[i]
+        obs[i] = {"kind": "wire", "s": cps(url), "px": cps(PROXY_URL) if px == "proxy" else NONE, "k": "did-not-return",
+                  "dials": [], "req": [], "snis": [], "vars": [], "exp": [], "varsrc": [cps(v) for v in variants]}
+    res["dnr"] = res.get("dnr", 0) + len(dnr)
+    res["skipped"] = res.get("skipped", 0) + len(info["skipped"])
+    res["budget_s"] = max(res.get("budget_s", 0.0), info["budget_s"])
+    res["max_input_cpu_s"] = max(res.get("max_input_cpu_s", 0.0), info["max_input_cpu_s"])
+    return obs
+
+
 def _shape_shard(job):
     lvl, sh, shs = job
     res = _new_res()
     res.update(emitted=0, expected_mismatch=0)
-    traces = []
-    pyside = []      # Python-side comparison with the emitted expectation (dial host, server name)
+    shapes = []
 
     def on_line(ln):
         if not ln.startswith('<<"W", "'):
             return False
         if not ln.endswith('">>'):
             raise tlc.MachineryError("truncated emission line: " + ln[:200])
-        d = json.loads(ln[8:-3].replace('\\\\', '\x00').replace('\\"', '"').replace('\x00', '\\'))
+        shapes.append(json.loads(ln[8:-3].replace('\\\\', '\x00').replace('\\"', '"').replace('\x00', '\\')))
         res["emitted"] += 1
-        url = text(d["s"])
-        variants = [text(v) for v in d["vars"]]
-        for px in ("none", "proxy"):
-            ob = drive(url, px, variants)
-            res["evaluations"] += 1 + len(variants)
-            ob["exp"] = {f: d["wire"][px][f] for f in WFIELDS}
-            # what TLC expects, compared here as well (drift-level cross-check of the canonical image)
-            w = d["wire"][px]
-            mism = bool(ob["k"] == "sent" and len(ob["dials"]) == 1 and len(ob["req"]) == (2 if w["mode"] == "tunnel" else 1)
-                        and (ob["dials"][0][0] != w["dialhost"] or ob["snis"] != ([] if w["sni"] == NONE else [w["sni"]])))
-            res["expected_mismatch"] += mism
-            pyside.append(mism)
-            for v, eq in zip(ob["vars"], d["eq"]):
-                v["eq_emitted"] = eq
-            traces.append(ob)
-            if len(res["samples"]) < 1 and d["facts"][px].get("hostkind") == "ipv6zone" and d["facts"][px].get("port") == "other":
-                res["samples"].append({"url": url, "proxy": px, "expected_WireOf": {f: (w[f] if isinstance(w[f], int) else (None if w[f] == NONE else text(w[f]))) for f in WFIELDS},
-                                       "observed": describe(ob)})
         return True
 
     invs = "".join(f"INVARIANT {i}\n" for i in STAGE1_INVS + ["EmitWire"])
@@ -250,6 +255,27 @@ def _shape_shard(job):
         return res
     if res["emitted"] != r.distinct:
         raise tlc.MachineryError(f"shape shard {sh}/{shs}: {res['emitted']} shapes emitted, TLC found {r.distinct}")
+    # stage 3: every shape (and its variants), without and with the proxy, inside the CPU-time watchdog
+    jobs = [(text(d["s"]), px, [text(v) for v in d["vars"]]) for d in shapes for px in ("none", "proxy")]
+    traces = []
+    pyside = []      # Python-side comparison with the emitted expectation (dial host, server name)
+    for (url, px, variants), ob, d in zip(jobs, guarded_drive(jobs, res), [d for d in shapes for _ in (0, 1)]):
+        if ob is None:
+            continue                  # abandoned after too many kills (counted in res["skipped"])
+        res["evaluations"] += 1 + len(variants)
+        w = d["wire"][px]
+        ob["exp"] = {f: w[f] for f in WFIELDS}
+        mism = bool(ob["k"] == "sent" and len(ob["dials"]) == 1 and len(ob["req"]) == (2 if w["mode"] == "tunnel" else 1)
+                    and (ob["dials"][0][0] != w["dialhost"] or ob["snis"] != ([] if w["sni"] == NONE else [w["sni"]])))
+        res["expected_mismatch"] += mism
+        pyside.append(mism)
+        for v, eq in zip(ob["vars"], d["eq"]):
+            v["eq_emitted"] = eq
+        traces.append(ob)
+        if len(res["samples"]) < 1 and d["facts"][px].get("hostkind") == "ipv6zone" and d["facts"][px].get("port") == "other":
+            res["samples"].append({"url": url, "proxy": px, "expected_WireOf": {f: (w[f] if isinstance(w[f], int) else (None if w[f] == NONE else text(w[f]))) for f in WFIELDS},
+                                   "observed": describe(ob)})
+    res["ntraces_expected"] = len(traces) + res.get("skipped", 0)
     for mism, clauses, ob in zip(pyside, judge(traces, res), traces):
         if mism != bool({"Wire:DialHost", "Wire:SNI"} & set(clauses)):
             raise tlc.MachineryError(f"comparison with the emitted WireOf and the TLC verdict disagree on {text(ob['s'])!r}: {mism} vs {clauses}")
@@ -301,12 +327,12 @@ def _random_shard(job):
     seed, n = job
     rng = random.Random(seed)
     res = _new_res()
-    traces = []
+    jobs = []
     for _ in range(n):
         u = gen_url(rng)
-        ob = drive(u, rng.choice(["none", "none", "proxy"]), [flip_case(rng, u)])
-        res["evaluations"] += 2
-        traces.append(ob)
+        jobs.append((u, rng.choice(["none", "none", "proxy"]), [flip_case(rng, u)]))
+    traces = [ob for ob in guarded_drive(jobs, res) if ob is not None]
+    res["evaluations"] += 2 * len(traces)
     judge(traces, res)
     return res
 
@@ -322,7 +348,7 @@ def _report(rep, findings, clause, facts, ob):
     else:
         rep.violation(clause, f"{clause}: {describe(ob)}",
                       {"kind": "wire", "s": ob["s"], "px": "none" if ob["px"] == NONE else "proxy",
-                       "vars": [v["s"] for v in ob["vars"]], "clause": clause})
+                       "vars": [v["s"] for v in ob["vars"]] or ob.get("varsrc", []), "clause": clause})
 
 
 def _absorb(rep, findings, o, tally, seen_bad):
@@ -373,7 +399,7 @@ def run(rep):
                        "states_generated": sum(o["generated"] for o in outs), "depth": 1, "wall_s": round(max(o["wall"] for o in outs), 1),
                        "invariants": STAGE1_INVS, "shapes_emitted": sum(o["emitted"] for o in outs),
                        "observations_replayed": sum(o["traces"] for o in outs)})
-    if sum(o["traces"] for o in outs) != 2 * nshapes or nshapes == 0:
+    if sum(o["traces"] + o.get("skipped", 0) for o in outs) != 2 * nshapes or nshapes == 0:
         raise tlc.MachineryError(f"{nshapes} shapes emitted but {sum(o['traces'] for o in outs)} observations validated (want 2 per shape)")
     judged = sum(o["judged"] for o in outs)
     if judged < 0.9 * 2 * nshapes:
@@ -392,6 +418,14 @@ def run(rep):
         _absorb(rep, findings, o, tally, seen_bad)
         rep.nontrivial.update(o["nontrivial"])
     rep.extra["verdict_tally"] = tally
+    allo = outs + rnd
+    rep.extra["watchdog"] = {"per_input_budget_cpu_s": max(o.get("budget_s", 0.0) for o in allo),
+                             "rule": f"max({guard.FLOOR} s, {guard.FACTOR:g} x median per-input CPU time of the batch), worker CPU time",
+                             "did_not_return": sum(o.get("dnr", 0) for o in allo),
+                             "abandoned_after_repeated_kills": sum(o.get("skipped", 0) for o in allo),
+                             "max_per_input_cpu_s_seen": round(max(o.get("max_input_cpu_s", 0.0) for o in allo), 4)}
+    if rep.extra["watchdog"]["abandoned_after_repeated_kills"] and not rep.violations:
+        raise tlc.MachineryError("inputs were abandoned by the watchdog but no Wire:DidNotReturn violation was recorded")
     rep.extra["modes_sent"] = modes
     rep.extra["expected_mismatch_python_side"] = sum(o["expected_mismatch"] for o in outs)
     rep.extra["random_traces"] = {"n": sum(o["traces"] for o in rnd), "judged": sum(o["judged"] for o in rnd)}
@@ -411,9 +445,9 @@ def replay(rep, path):
     if case.get("kind") != "wire":
         rep.violation(doc["clause"], "stage-1 violations are replayed by running the check again", case)
         return
-    ob = drive(text(case["s"]), case["px"], [text(v) for v in case["vars"]])
-    rep.evaluations += 1 + len(case["vars"])
     res = _new_res()
+    ob = guarded_drive([(text(case["s"]), case["px"], [text(v) for v in case["vars"]])], res)[0]   # same CPU-time budget
+    rep.evaluations += 1 + len(case["vars"])
     judge([ob], res)
     rep.traces += 1
     for clause, facts, o in res["bad"]:
